@@ -44,6 +44,7 @@ Theorem issue_no_panic E kvs0 paths max_decoys cnf header :
   (forall h p, ie_sign E h p <> Panic) -> issue E (JObj kvs0) paths max_decoys cnf header <> Panic.
 Proof.
   intros Hs. unfold issue. destruct (has_reserved true (JObj kvs0)); [discriminate|].
+  destruct (match cnf with Some _ => jhas_ "cnf" (JObj kvs0) | None => false end); [discriminate|].
   destruct (issue_fold E (JObj kvs0) paths (ie_salts E)) as [[c1 ds]|] eqn:Ef; cbn [of_res obind]; [|discriminate].
   pose proof (issue_fold_obj E paths (ie_salts E) (JObj kvs0) c1 ds I Ef) as Ho.
   destruct c1; try contradiction.
@@ -100,3 +101,8 @@ Proof. intros Hr. unfold build_disclosure, parse_path. rewrite Hr. reflexivity. 
 Lemma disclose_here_placeholder E key salt xs i v :
   parse_usize key = Some i -> nth_error xs i = Some v -> has_dots v = true -> disclose_here E key salt (JArr xs) = Err.
 Proof. intros Hp Hn Hd. unfold disclose_here. cbn. rewrite Hp, Hn, Hd. reflexivity. Qed.
+
+(* repair F21: a cnf claim of the caller together with required key binding is refused *)
+Theorem issue_own_cnf_refused E claims paths max_decoys k header :
+  jhas_ "cnf" claims = true -> issue E claims paths max_decoys (Some k) header = Fail.
+Proof. intros Hc. unfold issue. destruct (has_reserved true claims); [reflexivity|]. rewrite Hc. reflexivity. Qed.
